@@ -2,6 +2,7 @@ package main
 
 import (
 	"fmt"
+	"runtime/pprof"
 	"go/token"
 	"os"
 	"path/filepath"
@@ -223,6 +224,7 @@ func (e *engine) findFunc(pkgPath, name string) *ssa.Function {
 // exploration
 
 var traceNext bool
+var pathLog = os.Getenv("VERIF_PATHLOG") != ""
 
 type workQueue struct {
 	mu      sync.Mutex
@@ -324,6 +326,9 @@ func (e *engine) explore(h *harnessSpec) *harnessResult {
 					solver = NewSolver(e.opts.solverBin, e.opts.solverTmoMs)
 				}
 				r := e.runPath(h, fn, prefix, solver)
+				if pathLog {
+					fmt.Fprintf(os.Stderr, "path prefix=%d trace=%d steps=%d threads=%d alts=%d sched=%d\n", len(prefix), len(r.trace), r.steps, len(r.threads), len(r.alts), len(r.schedLog))
+				}
 				mu.Lock()
 				res.paths++
 				if len(r.trace) > res.maxDepth {
@@ -429,7 +434,32 @@ func (e *engine) runPathPinned(h *harnessSpec, fn *ssa.Function, prefix []int, s
 		r.call(nil, token.NoPos, fn, nil)
 	})
 	main.wake <- struct{}{}
-	<-r.doneCh
+	select {
+	case <-r.doneCh:
+	case <-time.After(watchdogDur):
+		last := r.schedLog
+		if len(last) > 12 {
+			last = last[len(last)-12:]
+		}
+		fmt.Fprintf(os.Stderr, "PATH WATCHDOG: %s prefix=%v steps=%d threads=%d timers=%d cur=%s last=%v\n", h.name, prefix, r.steps, len(r.threads), len(r.timers), r.cur.name, last)
+		if f, err := os.Create("/verif/out/watchdog-stacks.txt"); err == nil {
+			pprof.Lookup("goroutine").WriteTo(f, 2)
+			f.Close()
+		}
+		r.inconclusive("path did not finish within 120s (engine watchdog)")
+		r.finish()
+	}
 	solver.ResetTo(base)
 	return r
 }
+
+var watchdogDur = func() time.Duration {
+	if s := os.Getenv("VERIF_WATCHDOG_S"); s != "" {
+		var n int
+		fmt.Sscan(s, &n)
+		if n > 0 {
+			return time.Duration(n) * time.Second
+		}
+	}
+	return 120 * time.Second
+}()
